@@ -259,7 +259,7 @@ def qtok(v):
         return "-"
     try:
         f = _frac(v)
-    except TypeError:
+    except (TypeError, ValueError, OverflowError):
         return "?%r" % (v,)
     return "q%d_%d" % (f.numerator, f.denominator)
 
